@@ -444,6 +444,7 @@ def run(ctx):
 
     _session_state_rules(ctx, mpq)
     _rename_key_rule(ctx, mpq)
+    _payload_length_rule(ctx, mpq)
     version_gate_rule(ctx, mpq, "C06", r"::modification::")
 
 
@@ -626,6 +627,37 @@ def _session_state_rules(ctx, mpq):
             else:
                 ctx.bad(R_hdr, "update_header|%s|%s" % (ver, rn), uh.where, "%s: the slot the reader takes as `%s` is written from `%s` (%s)" % (ver, rn, w_.name, ", ".join(sorted(src))),
                         "after any flush the header names one table's position as another's: the reader rejects or misreads both tables")
+
+
+def _payload_length_rule(ctx, mpq):
+    """what the block entry records as the stored size is the length of what compression produced: the reader tells a compressed single
+    unit from a raw one by stored size < file size, and LZMA / bzip2 streams do not tolerate trailing bytes.  The modifier must not grow
+    the payload (zero padding to a dword boundary before encryption) — the cipher handles a short tail itself, as the builder's does"""
+    R = ctx.rule("C06.stored-payload-is-not-padded", "no function of modification.rs pushes / resizes bytes onto a buffer under a `% 4` / is_multiple_of(4) test (padding to the cipher's word size)", floor=1)
+    n = 0
+    for f in mpq.fn_list:
+        if not f.hir or f.kind == "Closure" or "::modification::" not in f.path or "::tests::" in f.path:
+            continue
+        enc = any(c.get("k") in ("call", "mcall") and re.search(r"encrypt", (c.get("fn") or "") + (c.get("m") or "")) for c in hirq.walk(f.hir["body"]))
+        if not enc:
+            continue
+        n += 1
+        ctx.saw_fn(f)
+        pad = None
+        for x in hirq.walk(f.hir["body"]):
+            if x.get("k") in ("while", "loop", "if"):
+                cond = hirq.render(x.get("c") or x.get("body") or {})[:300] if x.get("k") != "loop" else hirq.render(x["body"])[:300]
+                if re.search(r"is_multiple_of\(4\)|% 4\)", cond):
+                    body_ = x.get("body") or x.get("then") or {}
+                    if any(c.get("k") == "mcall" and c["m"] in ("push", "resize", "extend", "extend_from_slice") for c in hirq.walk(x)):
+                        pad = x
+        if pad is None:
+            ctx.ok(R, {"fn": f.path.split("::")[-1], "pads": False})
+        else:
+            ctx.bad(R, "%s|pads-before-encryption" % f.path.split("::")[-1], "%s:%d" % (f.file, pad.get("ln") or 0), "the data to be stored is padded to a multiple of 4 bytes before it is encrypted, and the padded length becomes the stored size",
+                    "a compressed payload whose padded length equals the file size reads back as the still-compressed bytes (the reader takes stored == original as raw); LZMA and bzip2 payloads fail to decode with bytes after the stream")
+    if n == 0:
+        ctx.bad(R, "modification|no-encrypting-function", "-", "no function of modification.rs encrypts data", "shape changed")
 
 
 def _rename_key_rule(ctx, mpq):
